@@ -18,6 +18,7 @@ EXTENDS Integers, Sequences, FiniteSets, TLC
 
 Inf == 1000
 None == -1000
+NoneD == -999      \* the data value None (harness callables and predicates treat it as this number)
 
 (***************************************************************************)
 (* Values: data is an integer, context is abstracted to a set of marks,    *)
@@ -29,6 +30,8 @@ ApplyMap(f, v) ==
   CASE f = "inc" -> [v EXCEPT !.d = @ + 1]
     [] f = "dbl" -> [v EXCEPT !.d = @ * 2]
     [] f = "id" -> v                                                  \* Print, Context
+    [] f = "nul" -> IF v.h \/ v.d % 2 = 0 THEN v ELSE [v EXCEPT !.d = NoneD]   \* user callable returning None
+                                                  \* for odd bare data: None is a value like any other
     [] f = "tag" -> [v EXCEPT !.c = @ \cup {"t"}, !.h = TRUE]          \* user callable adding a key
     [] f = "var" -> [d |-> v.d + 10, c |-> v.c \cup {"variable"}, h |-> TRUE]   \* Variable("x", +10)
     [] f = "upd" -> [v EXCEPT !.c = @ \cup {"k"}, !.h = TRUE]          \* UpdateContext("k", 1)
